@@ -16,8 +16,8 @@ PROPS = {
         "modules": ["CM.Props.C15", "CM.Props.C15Rec", "CM.Props.C15URI"],
         "level": "proof",
         "design_ref": "DESIGN.md §6 C15",
-        "technique": "Lean 4 theorems over definitions regenerated from the Go source (decide +kernel over all 256 bytes; induction over lines) + line-protocol correspondence + spec oracle",
-        "text": "Byte classifiers: the Lean definitions are regenerated from the Go source by a mechanical expression translator on every run and proved equal to the CommonMark lists for all 256 bytes (classifiers_eq_spec, kernel-evaluated). Recognizers, NormalizeURI, e-mail: hand-written Lean models tied to the code by an exhaustive-small-scope + random correspondence run; their agreement with the declarative specs in CM/Spec/Regular is a theorem where listed in the evidence and otherwise checked by running the Lean spec against the implementation on every generated line.",
+        "technique": "Lean 4 theorems: classifiers over definitions regenerated from the Go source (decide +kernel, all 256 bytes); five recognizers, NormalizeURI and e-mail recognition = CommonMark/RFC definitions for inputs of every length (induction, closed forms of the Go loops) + line-protocol correspondence of the hand-written models with the code + spec oracle on the implementation",
+        "text": "Byte classifiers: the Lean definitions are regenerated from the Go source by a mechanical expression translator on every run and proved equal to the CommonMark lists for all 256 bytes (classifiers_eq_spec, kernel-evaluated). Line recognizers: Model.parseThematicBreak / parseSetextHeadingUnderline / parseListMarker / parseCodeFence are proved equal to the readings of CommonMark 0.30 §4.1, §4.3, §5.2, §4.5 in CM/Spec/Regular for EVERY byte list (thematicBreak_eq_spec, setext_eq_spec, listMarker_eq_spec, fence_eq_spec: closed forms of the Go loops, induction, no length bound); parseATXHeading is proved equal to §4.2 on every line outside the class of the known finding KF-C15-atx-escaped-space (atx_eq_spec_partial), that class is proved to be exactly where they differ (atx_eq_spec_iff) and the full statement is proved false (atx_eq_spec_target_false). NormalizeURI: output in (reserved | unreserved | %HH)* and idempotent for every string (normalizeURI_alphabet, normalizeURI_idem); IsEmailAddress = the spec's regular expression for every string (email_eq_regex). The per-byte facts these proofs use are kernel-checked over the regenerated definitions. The hand-written models of the recognizers, NormalizeURI and the e-mail parser are tied to the code by an exhaustive-small-scope + random correspondence run, and the Lean specs are additionally run against the implementation on every generated line.",
         "note": "Trusts the expression translator (cross-checked on all 256 bytes per classifier against the compiled Go), and the Spec transcription. The recognizer/URI/e-mail models are tied behaviourally, not by translation.",
     },
 }
